@@ -24,7 +24,7 @@ m = dict(
                baseline_off_cmd="cd /repo && cargo test --workspace --no-fail-fast --offline", source_commits=[], add_only=True),
     engines=[dict(name="verus-extract", path="vx/", serves_properties=sorted(props), kind_free_text="mechanical extraction of real functions + contract splicing + Verus 0.2026.09.13 (Z3); vacuity probes; sabotage self-test (thorough)")],
     checks=checks,
-    notes="Genuine defects repaired in /repo (unguarded 'fix:' commits, details in KNOWN_FINDINGS.txt and DESIGN.md section 6): " + ", ".join(sorted(set(l.split()[2] for l in open(os.path.join(V, "KNOWN_FINDINGS.txt")) if l.startswith("fixed:")))) + ". Always-on bounded stand-ins (contracts/bounded/U*.rs) run the real code of functions outside Verus's subset; they are labelled bounded in every evidence file (coverage.bounded_checks / bounded_standins) and never counted as obligations. Unbounded proofs are per-function contracts on code extracted from /repo at run time (rules X1-X12, DESIGN.md 2.2). exit 2 = undecided (lost anchor, front-end error, resource limit), never a VIOLATION.",
+    notes="Genuine defects repaired in /repo (unguarded 'fix:' commits, details in KNOWN_FINDINGS.txt and DESIGN.md section 6): " + ", ".join(sorted(set(l.split()[2] for l in open(os.path.join(V, "KNOWN_FINDINGS.txt")) if l.startswith("fixed:")))) + ". Recorded and not repaired (reported as KNOWN-FINDING, exit 0; DESIGN.md section 6): " + ("; ".join(l.split(" site=")[0].replace("finding: ", "") + " site=" + l.split(" site=")[1].split()[0] + " (" + l.split(" site=")[1].split()[1] + ")" for l in open(os.path.join(V, "KNOWN_FINDINGS.txt")) if l.startswith("finding:")) or "none") + ". Always-on bounded stand-ins (contracts/bounded/U*.rs) run the real code of functions outside Verus's subset; they are labelled bounded in every evidence file (coverage.bounded_checks / bounded_standins) and never counted as obligations. Unbounded proofs are per-function contracts on code extracted from /repo at run time (rules X1-X12, DESIGN.md 2.2). exit 2 = undecided (lost anchor, front-end error, resource limit), never a VIOLATION.",
     not_applicable=[dict(property_id=k, reason=v) for k, v in sorted(na.items()) if k not in props],
 )
 json.dump(m, open(os.path.join(V, "MANIFEST.json"), "w"), indent=1)
